@@ -89,7 +89,7 @@ TEXTS = {
     'C13': dict(
         text="Generated-input search over invalid and boundary inputs: a sketch in a generated reachable state receives one call from the documented-invalid and boundary classes (adds, quantiles, merges with mappings that differ in kind, accuracy or only in index offset, non-positive reweights at sketch and store level, constructors, NewBin, summary statistics constructors); the documented error (or nil for valid input) is required and the full observation before and after a refusal must be identical; one time in four the sketch first decode-merges a mapping that is Equal without being bit-identical, after which the bounds of its current mapping decide. Re-detects repaired finding F5.",
         design_ref="DESIGN.md §2 C13",
-        note="Trusted: obs.Sketch observer. The grey corner AddWithCount(invalid, 0) on the exact variant is not asserted either way.",
+        note="Trusted: obs.Sketch observer.",
         technique="property-based testing (rapid) with a contract-derived expected outcome and before/after observation equality",
     ),
     'C14': dict(
